@@ -201,7 +201,7 @@ def run(ctx: Ctx):
         _bump(ctx, rec)
     for rec in (records[0], records[len(records) // 2], rnd[0], rnd[-1]):
         ctx.sample(rec)
-    verdicts = K.validate_fast(ctx, TRACE, records, batch=1500 if not thorough else 4000)
+    verdicts = K.validate_fast(ctx, TRACE, records)
     ctx.notes["rows_judged"] = sum(len(r["rows"]) for r, v in zip(records, verdicts) if v["scope"])
     ctx.notes["rows_out_of_scope"] = sum(len(r["rows"]) for r, v in zip(records, verdicts) if not v["scope"])
     ctx.trusted_base = ["TLC 1.8 evaluation of spec/Calling.tla, spec/Karyotype.tla (incl. its base-10^4 limb arithmetic)",
